@@ -44,6 +44,15 @@ func (r *run) judgeSuccessDespiteFault(o outcome, cancels []cancelEv, panics []p
 			return
 		}
 	}
+	if p.Inflight && commit != 0 {
+		// S4: the cancel call had been seen parked inside core/mr (error registered, draining the
+		// source) before the reducer's Write was invoked
+		if cp := r.cancelParked.Load(); cp != 0 && cp < commit {
+			r.viol("C10/outcome/success-while-cancel-in-progress",
+				fmt.Sprintf("cancel(err) was in progress inside core/mr (seen parked at stamp %d) before the reducer committed (stamp %d), yet the call returned %s", cp, commit, o.String()), o)
+			return
+		}
+	}
 	if p.hasReducer() && commit != 0 {
 		// S1: a cancel call that had RETURNED before the commit point began makes success impossible
 		for _, c := range cancels {
